@@ -106,8 +106,16 @@ def ensure_makefile():
 
 
 def make_targets(targets, timeout=1500):
-    ensure_makefile()
-    rc, out, err = sh(["make", "-j%d" % NCPU, "-k"] + targets, timeout, cwd=COQ)
+    """Serialised by a file lock: several checks (or agents) may run at the same time."""
+    import fcntl
+    os.makedirs(BUILD, exist_ok=True)
+    with open(os.path.join(BUILD, ".coq.lock"), "w") as lk:
+        fcntl.flock(lk, fcntl.LOCK_EX)
+        try:
+            ensure_makefile()
+            rc, out, err = sh(["make", "-j%d" % NCPU, "-k"] + targets, timeout, cwd=COQ)
+        finally:
+            fcntl.flock(lk, fcntl.LOCK_UN)
     return rc, out + err
 
 
